@@ -1017,11 +1017,14 @@ func (env *SpecEnv) viewCall(e *Expr) *SV {
 }
 
 // abstract views: uninterpreted functions of the reference; "cursor" is a ghost heap field.
-var abstractViews = map[string]bool{"RLen": true, "RBit": true, "cursor": true, "FLen": true, "FByte": true, "FBit": true, "fpos": true}
+// ghostFields: state-dependent abstract values attached to a reference (ghost heap fields)
+var ghostFields = map[string]bool{"cursor": true, "fpos": true, "bigVal": true}
+
+var abstractViews = map[string]bool{"bigVal": true, "RLen": true, "RBit": true, "cursor": true, "FLen": true, "FByte": true, "FBit": true, "fpos": true}
 
 func (x *Exec) abstractView(env *SpecEnv, name string, a *SV, e *Expr) *SV {
 	switch name {
-	case "cursor", "fpos":
+	case "cursor", "fpos", "bigVal":
 		comp := "G$" + name
 		m := x.comp(env.heap, comp, SArray(SInt, SInt))
 		return &SV{T: Select(m, a.T)}
